@@ -118,6 +118,7 @@ def run(ctx, anchors=None):
             seen_loc.add(key)
             sites.append((f, n, op, a, b, la, lb, is_num))
     per_limit = {}
+    helper_sites = {}
     for (f, n, op, a, b, la, lb, is_num) in sites:
         ctx.site()
         reachable = f.id in reach
@@ -169,9 +170,59 @@ def run(ctx, anchors=None):
             if par is not None and par.get("k") == "return" and f.short in ("IsUnspendable",):
                 ok = True
                 how = "disjunct of the value returned by predicate %s (true = unspendable)" % f.short
+            elif par is not None and par.get("k") == "return" and f.d.get("ret") == "bool":
+                # a predicate helper: every call site must branch on it and reject on true
+                csites = []
+                for g in fb.funcs.values():
+                    for cn in g.nodes():
+                        if astq.is_call(cn) and cn.get("cid") == f.id:
+                            csites.append((g, cn))
+                good = bool(csites)
+                for (g, cn) in csites:
+                    gcfg = g.cfg()
+                    es = [s_ for (blk, s_, c, t) in gcfg.cond_edges() if c == cn["id"] and t]
+                    rj = reject_nodes(g)
+                    if not es or not rj or not gcfg.must_pass_from_block(es[0], rj):
+                        good = False
+                    helper_sites.setdefault(f.id, []).append((g, cn))
+                ok = good
+                how = "value of predicate helper %s; all %d call sites reject on true" % (f.name, len(csites))
         ctx.inst(ok, "R10.2", "cmp=" + inst_key, f.loc(n), "`%s`: %s; %s" % (astq.estr(n), thr_txt, how),
                  "`%s`: exceeding the limit does not lead to a rejection on every path" % astq.estr(n))
     ctx.floor("R10.2", len(sites), 12, "comparisons against limit constants in the tree")
+
+    # ---- R10.7 the compared quantity
+    QUANT = {"MAX_STACK_SIZE": {"stack", "altstack"}, "MAX_SCRIPT_ELEMENT_SIZE": {"vchPushValue"}, "MAX_OPS_PER_SCRIPT": {"nOpCount"}}
+    ctx.rule("R10.7", "inside the operation step the quantity compared with a limit is the consensus one (stack+altstack items, pushed element size, op counter)")
+    for (f, n, op, a, b, la, lb, is_num) in sites:
+        if is_num:
+            continue
+        lname = (la or lb)[0]
+        if lname not in QUANT or f.id not in reach_step or f.short == "HasValidOps":
+            continue
+        other = a if lb else b
+        fal = astq.aliases(f)
+        names = set()
+        pidx = {p_["d"]: i for i, p_ in enumerate(f.params)}
+        for x in walk(other):
+            if x["k"] in ("ref", "mem"):
+                for pth in astq.paths(x, fal):
+                    if pth[0][0] == "parm" and len(pth) == 1 and f is not opstep:
+                        # parameter of a helper: substitute the arguments at its call sites
+                        i = pidx.get(pth[0][1])
+                        for (g, cn) in helper_sites.get(f.id, []):
+                            obj, args_ = astq.call_args(cn)
+                            if i is not None and i < len(args_) and args_[i] is not None:
+                                for q in astq.paths(args_[i], astq.aliases(g)):
+                                    names.add([z for z in q if isinstance(z, str) and z not in ("[]", "*")][-1] if len(q) > 1 else q[0][1].split("#")[0])
+                    else:
+                        fl = [z for z in pth[1:] if z not in ("[]", "*")]
+                        names.add(fl[-1] if fl else pth[0][1].split("#")[0] if len(pth[0]) > 1 else "")
+        want = QUANT[lname]
+        ctx.site()
+        ctx.inst(want <= names, "R10.7", "quantity=%s@%s" % (lname, f.name), f.loc(n),
+                 "the quantity compared with %s involves %s" % (lname, ", ".join(sorted(want))),
+                 "the quantity compared with %s is `%s`; consensus counts %s (found only %s)" % (lname, astq.estr(other), " + ".join(sorted(want)), ", ".join(sorted(names & want)) or "none of them"))
 
     # ---- R10.2b required enforcement
     for name, s in sorted(LIM.items()):
@@ -313,28 +364,56 @@ def run(ctx, anchors=None):
     ctx.extra["stepextended_numeric_sizes_inventory_only"] = inv
 
     # ---- R10.6 op counter reset at every script switch
-    sal = astq.aliases(stepper)
-    scfg = stepper.cfg()
-    switches = []
-    for n in stepper.nodes():
-        lhs = None
-        if n["k"] == "opcall" and n["op"] == "=" and len(n["args"]) == 2:
-            lhs = n["args"][0]
-        elif n["k"] == "assign":
-            lhs = n["lhs"]
-        if lhs is not None and any(p[1:] == ("script",) for p in astq.paths(lhs, sal)):
-            switches.append(n)
-    ctx.floor("R10.6", len(switches), 2, "script switches (script = ...) in the session stepper")
-    resets = [n for n in stepper.nodes() if n["k"] == "assign" and astq.const_value(n["rhs"]) == 0
-              and any(p[1:] == ("nOpCount",) for p in astq.paths(n["lhs"], sal))]
-    for swn in switches:
-        ok = scfg.must_pass_after(swn, resets) if resets else False
-        ctx.inst(ok, "R10.6", "opcount-reset:" + astq.estr(swn)[:50], stepper.loc(swn),
-                 "every path after the script switch resets nOpCount to 0 before returning",
-                 "after the script switch `%s` the stepper can return without resetting nOpCount" % astq.estr(swn))
+    def script_switch_events(func):
+        fal = astq.aliases(func)
+        ev = []
+        for n in func.nodes():
+            lhs = None
+            if n["k"] == "opcall" and n["op"] == "=" and len(n["args"]) == 2:
+                lhs = n["args"][0]
+            elif n["k"] == "assign":
+                lhs = n["lhs"]
+            if lhs is not None and any(p[1:] == ("script",) for p in astq.paths(lhs, fal)):
+                ev.append(n)
+        return ev
+
+    def resets_of(func):
+        fal = astq.aliases(func)
+        return [n for n in func.nodes() if n["k"] == "assign" and astq.const_value(n["rhs"]) == 0
+                and any(p[1:] == ("nOpCount",) for p in astq.paths(n["lhs"], fal))]
+    nsw = 0
+    for f in [stepper] + [g for (cn, g) in prog.callees(stepper, include_fnptr=False) if g.file == stepper.file]:
+        evs = script_switch_events(f)
+        if not evs:
+            continue
+        fcfg = f.cfg()
+        rs = resets_of(f)
+        for swn in evs:
+            nsw += 1
+            ok = fcfg.must_pass_after(swn, rs) if rs else False
+            if not ok and f is not stepper:
+                # helper: every call site in the stepper must reset after the call
+                css = [cn for cn in stepper.nodes() if astq.is_call(cn) and cn.get("cid") == f.id]
+                srs = resets_of(stepper)
+                scfg = stepper.cfg()
+                bad = [cn for cn in css if not (srs and scfg.must_pass_after(cn, srs))]
+                for cn in bad:
+                    ctx.fail("R10.6", "opcount-reset:" + astq.estr(cn)[:50], stepper.loc(cn),
+                             "the script switch performed by %s at %s is not followed by a reset of nOpCount on every path: the next script inherits the previous script's operation count"
+                             % (f.name, stepper.loc(cn)))
+                for cn in css:
+                    if cn not in bad:
+                        ctx.ok("R10.6", "opcount-reset:" + astq.estr(cn)[:50], stepper.loc(cn), "nOpCount is reset after the switch through %s" % f.name)
+                continue
+            ctx.inst(ok, "R10.6", "opcount-reset:" + astq.estr(swn)[:50], f.loc(swn),
+                     "every path after the script switch resets nOpCount to 0 before returning",
+                     "after the script switch `%s` the stepper can return without resetting nOpCount" % astq.estr(swn))
+    ctx.floor("R10.6", nsw, 1, "script switches (script = ...) in the session stepper or its helpers")
 
 
 MUTANTS = [
+    dict(name="altstack-not-counted", file="script/interpreter.cpp", find="if (stack.size() + altstack.size() > MAX_STACK_SIZE)\n                return set_error(serror, SCRIPT_ERR_STACK_SIZE);\n        }\n    }",
+         replace="if (stack.size() > MAX_STACK_SIZE)\n                return set_error(serror, SCRIPT_ERR_STACK_SIZE);\n        }\n    }", expect=["R10.7:quantity=MAX_STACK_SIZE"]),
     dict(name="push-size-ge", file="script/interpreter.cpp", find="vchPushValue.size() > MAX_SCRIPT_ELEMENT_SIZE",
          replace="vchPushValue.size() >= MAX_SCRIPT_ELEMENT_SIZE", expect=["R10.2:cmp=MAX_SCRIPT_ELEMENT_SIZE@StepScript"]),
     dict(name="opcount-ge", file="script/interpreter.cpp", find="++nOpCount > MAX_OPS_PER_SCRIPT",
